@@ -270,20 +270,24 @@ def roundF32 (n : Nat) : Nat :=
     let q' := if r > half ∨ (r = half ∧ q % 2 = 1) then q + 1 else q
     q' * 2 ^ e
 
-/-- fill counts `(left, right)` for `fillChars` missing clusters -/
-def fillCounts (a : Align) (isNumber : Bool) (fillChars : Nat) : Nat × Nat :=
+/-- fill counts `(left, right)` for `fillChars` missing clusters.
+`exactCenter = true` describes a tree with requests/C15-fix-2.diff applied (integer halves). -/
+def fillCounts (a : Align) (isNumber : Bool) (fillChars : Nat) (exactCenter : Bool := false) : Nat × Nat :=
   match a with
   | .default => if isNumber then (fillChars, 0) else (0, fillChars)
   | .left => (0, fillChars)
   | .right => (fillChars, 0)
   | .center =>
-    let r := roundF32 fillChars        -- `fill_chars as f32`
-    (r / 2, (r + 1) / 2)               -- `(x / 2.0).floor()`, `(x / 2.0).ceil()`
+    if exactCenter then (fillChars / 2, fillChars - fillChars / 2)
+    else
+      let r := roundF32 fillChars        -- `fill_chars as f32`
+      (r / 2, (r + 1) / 2)               -- `(x / 2.0).floor()`, `(x / 2.0).ceil()`
 
 def rep_ (n : Nat) (s : Bytes) : Bytes := (List.replicate n s).flatten
 
 /-- second part of `run_string_push`: minimum width, fill, alignment -/
-def pad (gFirst : Bytes → Nat) (isNumber : Bool) (rendered : Bytes) (o : Option Opts) : Bytes :=
+def pad (gFirst : Bytes → Nat) (isNumber : Bool) (rendered : Bytes) (o : Option Opts)
+    (exactCenter : Bool := false) : Bytes :=
   match o with
   | none => rendered
   | some o =>
@@ -291,7 +295,7 @@ def pad (gFirst : Bytes → Nat) (isNumber : Bool) (rendered : Bytes) (o : Optio
     let minWidth := o.minWidth.getD 0
     if len < minWidth then
       let fill := o.fill.getD [32]
-      let (l, r) := fillCounts o.align isNumber (minWidth - len)
+      let (l, r) := fillCounts o.align isNumber (minWidth - len) exactCenter
       rep_ l fill ++ rendered ++ rep_ r fill
     else rendered
 
@@ -300,13 +304,13 @@ def isNumber : FVal → Bool
   | _ => false
 
 /-- what `run_string_push` appends to the string builder -/
-def applyFmt (gFirst : Bytes → Nat) (v : FVal) (o : Option Opts) : Bytes :=
-  pad gFirst (isNumber v) (render gFirst v o) o
+def applyFmt (gFirst : Bytes → Nat) (v : FVal) (o : Option Opts) (exactCenter : Bool := false) : Bytes :=
+  pad gFirst (isNumber v) (render gFirst v o) o exactCenter
 
 /-- `'{v:fmt}'`: parse the options, then apply them -/
-def format (gFirst : Bytes → Nat) (fmt : Bytes) (v : FVal) : Except PErr Bytes :=
+def format (gFirst : Bytes → Nat) (fmt : Bytes) (v : FVal) (exactCenter : Bool := false) : Except PErr Bytes :=
   match parse gFirst fmt with
   | .error e => .error e
-  | .ok o => .ok (applyFmt gFirst v (some o))
+  | .ok o => .ok (applyFmt gFirst v (some o) exactCenter)
 
 end KotoVerif.FmtSpec
